@@ -1,7 +1,6 @@
 ---- MODULE OCO_MC ----
 EXTENDS OCO
 Deltas == {<<0, 1>>, <<1, 2>>}
-PosDeltas == {<<1, 2>>, <<3, 1>>}
 Mk(algs, ds, ks, deltas, tm) ==
   {[alg |-> a, d |-> d, k |-> k, dN |-> dl[1], dD |-> dl[2], lrN |-> 1, lrD |-> 4, tmax |-> tm] :
      a \in algs, d \in ds, k \in ks, dl \in deltas}
